@@ -166,6 +166,15 @@ CLAIMED = {
              "holder can outlive the object) are reported, each with the failing history.",
         tech="inter-procedural provenance/taint, escape (ownership) analysis over feasible paths, contradiction rule for NULL, record layouts",
         ref="DESIGN.md §4 C04"),
+    "C20": dict(
+        text="Static rules: every close() site is one of six listed kinds with the facts that make it safe (own pipe ends, epoll handle, internal "
+             "descriptor under type > FD on RM, auto-close descriptor of a PS/FD source — decided over feasible paths with constant propagation); "
+             "every descriptor-creating call is in the pairing table with its closing counterpart (internal descriptors only on ADD, dup forces "
+             "AUTOCLOSE, pipe read end registered auto-close); all per-kind descriptors alias fd_src.fd at offset 0; the poll removal in the source "
+             "destructor must be reached on every path; a closed field is reset to -1. Counts of open descriptors per history are not decided. "
+             "Known finding K2 (poll removal only while the owner is RUNNING) is reported.",
+        tech="who-calls/provenance tables, must-pass dataflow, record layouts, feasible-path enumeration",
+        ref="DESIGN.md §4 C20"),
 }
 
 NOT_APPLICABLE = {
@@ -173,7 +182,7 @@ NOT_APPLICABLE = {
            "argument is in reach with the tools present (the only shape clause, single FIFO channel per module, is an obligation of C02). See DESIGN.md §6.",
 }
 
-PENDING_REASON = "check not built yet in this revision of /verif (static rules designed in DESIGN.md §4); not claimed until its command exists"
+PENDING_REASON = "(no longer used) check not built yet in this revision of /verif (static rules designed in DESIGN.md §4); not claimed until its command exists"
 
 ALL = ["C%02d" % i for i in range(1, 21)]
 
